@@ -19,6 +19,9 @@ for n in names:
     if not os.path.exists(mp):
         continue
     meta = json.load(open(mp))
+    if meta.get("verif_result") == "OBSOLETE":
+        print(n, meta.get("property"), "OBSOLETE", flush=True)
+        continue
     prop = meta.get("property")
     extra = ONLY.get(n, [])
     if n in TIER and not extra:
